@@ -49,6 +49,7 @@ type ncSpec struct {
 	BranchName string `json:"branch_condition_type,omitempty"`
 	StreamCond bool   `json:"stream_condition,omitempty"`
 	SubCont    string `json:"nested_container,omitempty"`
+	Lazy       bool   `json:"lazy_transform_behind_the_check,omitempty"` // the checked stream is first read by whoever follows an unread hand-over
 	Input      string `json:"input"`
 	Seed       uint64 `json:"seed"`
 
@@ -56,7 +57,7 @@ type ncSpec struct {
 }
 
 func (s *ncSpec) digest() string {
-	return mon.H8(fmt.Sprint(s.Cont, s.Mode, s.Src, s.SrcTy, s.Kind, s.ChunkStr, s.pPara, s.Pre, s.Post, s.prePara, s.postPara, s.T, s.T2, s.cPara, s.c2Para, s.BranchTy, s.StreamCond, s.SubCont))
+	return mon.H8(fmt.Sprint(s.Cont, s.Mode, s.Src, s.SrcTy, s.Kind, s.ChunkStr, s.pPara, s.Pre, s.Post, s.prePara, s.postPara, s.T, s.T2, s.cPara, s.c2Para, s.BranchTy, s.StreamCond, s.SubCont, s.Lazy))
 }
 
 func ncPara(r *mon.Rand) int { return 1 + r.Intn(15) }
@@ -201,6 +202,7 @@ func ncGen(r *mon.Rand) *ncSpec {
 	}
 	s.Pre = s.Src == "node" && r.Prob(0.4)
 	s.Post = s.Mode != "end" && s.Mode != "fan" && r.Prob(0.4)
+	s.Lazy = (s.Mode == "edge" || s.Mode == "key" || s.Mode == "end" || s.Mode == "pass") && r.Prob(0.3)
 
 	// the chunks
 	switch x := r.Intn(100); {
@@ -496,6 +498,33 @@ func ncProducer(s *ncSpec, chunks []any, srcTy ty, para int, wantIn string) *com
 	}, func(out any, r *mon.Rand) []any { return chunks })
 }
 
+// ncLazy: T -> T, natively a Transform that hands its input stream on without reading it.
+func ncLazy[T any](same bool) *compose.Lambda {
+	return compose.TransformableLambda(func(ctx context.Context, sr *schema.StreamReader[T]) (*schema.StreamReader[T], error) {
+		if same {
+			return sr, nil
+		}
+		return schema.StreamReaderWithConvert(sr, func(t T) (T, error) { return t, nil }), nil
+	})
+}
+
+func ncLazyFor(t ty, same bool) *compose.Lambda {
+	switch t {
+	case tStr:
+		return ncLazy[string](same)
+	case tAny:
+		return ncLazy[any](same)
+	case tNamed:
+		return ncLazy[Named](same)
+	case tPtr:
+		return ncLazy[*Rec](same)
+	case tRec:
+		return ncLazy[Rec](same)
+	default:
+		return ncLazy[map[string]any](same)
+	}
+}
+
 func ncGraphBranch[T any](stream bool, keys []string) *compose.GraphBranch {
 	ends := map[string]bool{}
 	for _, k := range keys {
@@ -617,13 +646,24 @@ func ncItems(s *ncSpec) ([]ncItem, error) {
 	if s.Src == "node" {
 		items = append(items, ncItem{Kind: "lam", Key: "p", Lam: ncProducer(s, s.Chunks, s.SrcTy, s.pPara, want)})
 	}
+	// the node behind the check: the consumer, or a transform that hands the checked stream on unread
+	var keyOpt []compose.GraphAddNodeOpt
+	if s.Mode == "key" {
+		keyOpt = []compose.GraphAddNodeOpt{compose.WithInputKey("k")}
+	}
+	checked := []ncItem{{Kind: "lam", Key: "c", Lam: ncConsumer("c", s.T, s.cPara, s.Seed^1), Opts: keyOpt}}
+	if s.Lazy {
+		checked = []ncItem{{Kind: "lam", Key: "lazy", Lam: ncLazyFor(s.T, s.Seed&1 == 0), Opts: keyOpt}}
+		if s.Mode != "end" {
+			checked = append(checked, ncItem{Kind: "lam", Key: "c", Lam: ncConsumer("c", s.T, s.cPara, s.Seed^1)})
+		}
+	}
 	switch s.Mode {
-	case "edge":
-		items = append(items, ncItem{Kind: "lam", Key: "c", Lam: ncConsumer("c", s.T, s.cPara, s.Seed^1)})
+	case "edge", "key":
+		items = append(items, checked...)
 	case "pass":
-		items = append(items, ncItem{Kind: "pass", Key: "pass"}, ncItem{Kind: "lam", Key: "c", Lam: ncConsumer("c", s.T, s.cPara, s.Seed^1)})
-	case "key":
-		items = append(items, ncItem{Kind: "lam", Key: "c", Lam: ncConsumer("c", s.T, s.cPara, s.Seed^1), Opts: []compose.GraphAddNodeOpt{compose.WithInputKey("k")}})
+		items = append(items, ncItem{Kind: "pass", Key: "pass"})
+		items = append(items, checked...)
 	case "sub":
 		sub, err := ncSubGraph(s)
 		if err != nil {
@@ -641,6 +681,9 @@ func ncItems(s *ncSpec) ([]ncItem, error) {
 			{Kind: "lam", Key: "b", Lam: ncConsumer("d", s.T2, s.c2Para, s.Seed^3)},
 		}})
 	case "end":
+		if s.Lazy {
+			items = append(items, checked...)
+		}
 	}
 	if s.Post {
 		items = append(items, ncItem{Kind: "lam", Key: "post", Lam: ncStrLam(">post", s.postPara, s.Seed^4)})
@@ -929,6 +972,9 @@ func nilChunkCase(ctx context.Context, rep *mon.Reporter, rng *mon.Rand, cfg mon
 	rep.Count("nilchunk_kind_"+s.Kind, 1)
 	rep.Count("nilchunk_source_"+s.Src, 1)
 	rep.Count("nilchunk_cont_"+s.Cont, 1)
+	if s.Lazy {
+		rep.Count("nilchunk_lazy_transform_behind_check", 1)
+	}
 	if ref.Fail != "" {
 		rep.Count("nilchunk_ref_must_fail", 1)
 	} else {
@@ -941,7 +987,7 @@ func nilChunkCase(ctx context.Context, rep *mon.Reporter, rng *mon.Rand, cfg mon
 		}
 	}
 	rep.Count("nilchunk_nil_chunks", int64(nils))
-	rep.Distinct("nilchunk_shapes", fmt.Sprint(s.Cont, s.Mode, s.Src, s.SrcTy, s.T, s.T2, s.BranchTy, s.StreamCond, s.Kind, s.Pre, s.Post))
+	rep.Distinct("nilchunk_shapes", fmt.Sprint(s.Cont, s.Mode, s.Src, s.SrcTy, s.T, s.T2, s.BranchTy, s.StreamCond, s.Kind, s.Pre, s.Post, s.Lazy))
 
 	var in any = s.Input
 	chunksOf := func(r *mon.Rand) []any { return anyStrs(splitStr(s.Input, r)) }
